@@ -156,6 +156,8 @@ where
                 }
             }
         }
+        // Hand the generator back: a later construction continues the seeded stream.
+        self.rng = Some(rng);
         println!(
             "PRM: Roadmap constructed with {} milestones.",
             self.roadmap.len()
